@@ -39,6 +39,13 @@ def ser(v, kinds=None):
         if kinds is not None:
             kinds[k] = kinds.get(k, 0) + 1
         names, vals = [], []
+        if k in ('Import', 'ImportFrom') and all(hasattr(a, 'end_lineno') and hasattr(a, 'end_col_offset') for a in v.names):
+            # SourceScope.alias_start reads the END position of an alias: carried as positioned pseudo-nodes, BEFORE the real
+            # fields (get_expr_end must still end at the last alias), so that they move with the layout like every position
+            names.append('alias_ends')
+            vals.append([{'k': '_AliasEnd', 'p': [a.end_lineno, a.end_col_offset], 'n': [], 'v': []} for a in v.names])
+            if kinds is not None:
+                kinds['_AliasEnd'] = kinds.get('_AliasEnd', 0) + len(v.names)
         for f in v._fields:
             if not hasattr(v, f):
                 continue            # an absent optional attribute stays absent (getattr default / hasattr in the code)
@@ -344,6 +351,7 @@ SPECIALS = [
     'x = 1; y = x if x else 2; del x\nassert y, "m"\nraise E from y\n',
     'a = b = c, d = 1, 2\na.b = c[0] = 3\nx += 1\nprint(f"{a!r:>{b}}")\n',
     'return 3\nglobal q\nq = 1\nnonlocal_ = 1\n',
+    'from mod.x import y as mod\nimport o as o, os.path as p\nfrom a import (\nb, c as d,\n    e)\nx = "é€"; import os as o; from é import ü as é\nfrom . import *\n',
     '',
     'v = 1\ndef f(a=v, /, b=v, *c, d=v, e: v = v, **g: v) -> v:\n    pass\nh = lambda a=v, *, b=v: a\n',
     'def f():\n    """doc"""\n',
